@@ -122,8 +122,31 @@ def position_pass_facts(ctx, b):
                     ok, cnt = yields_only_empty(ctx, y)
                     if cnt:
                         yielders.append((y, ok))
-        out.append({'cs': cs, 'item_ok': item_ok, 'pos_ok': pos_ok, 'yielders': yielders})
+        out.append({'cs': cs, 'item_ok': item_ok, 'pos_ok': pos_ok, 'yielders': yielders, 'nexts': nexts, 'loops': loops})
     return out
+
+
+def pass_sites(ctx, b):
+    """Where body b runs a position pass: a call to a body that contains one, or the pass written in place
+    (then the site is the iterator's next() call, which dominates the loop and everything after it).
+    [dict(point, cs (CallSite|None), body (where the log sites are), facts, inline)]"""
+    out = []
+    for w in b.calls:
+        if w.node is not None:
+            wb = ctx.f.bodies[w.node]
+            facts = position_pass_facts(ctx, wb)
+            if facts:
+                out.append({'point': w.point, 'cs': w, 'body': wb, 'facts': facts, 'inline': False})
+    for f in position_pass_facts(ctx, b):
+        for n in f['nexts']:
+            out.append({'point': n.point, 'cs': n, 'body': b, 'facts': [f], 'inline': True})
+    return out
+
+
+def inline_pass_markers(ctx):
+    def markers(bb):
+        return [ps['point'] for ps in pass_sites(ctx, bb) if ps['inline'] and all(f['item_ok'] and f['pos_ok'] and f['yielders'] and all(ok for (_y, ok) in f['yielders']) for f in ps['facts'])]
+    return markers
 
 
 def is_position_pass(ctx, b):
@@ -141,7 +164,9 @@ def gc1(ctx):
     if not pp:
         ctx.missing('position-pass', 'no body qualifies as position pass (RecordPosition log site in a loop over empty queues)')
     for (b, cs) in sites:
-        ok, wit = lifted_dominated(ctx, b, cs.point, lambda bb, c: c.node in pp)
+        # a pass that dominates from inside a callee of the same chain does not count for its own unlink:
+        # only callee passes that are not on the chain, or a pass written in place before the call
+        ok, wit = lifted_dominated(ctx, b, cs.point, lambda bb, c: c.node in pp and not ctx.E.call_may(c, 'UNLINK'), markers=inline_pass_markers(ctx))
         chain = ' <- '.join(x.path for (x, _c) in wit)
         ctx.check(ok, '%s:%s' % (b.path, cs.path), where(b, cs.point),
                   'unlink dominated by the position pass (%s)' % chain,
@@ -243,24 +268,24 @@ def gc2w(ctx):
     n = 0
     for (b, u) in gc_frames(ctx):
         # position-pass calls (or RecordPosition log sites) in b that reach u
-        for w in b.calls:
-            if w.node is None or w.point == u.point:
+        for ps in pass_sites(ctx, b):
+            w = ps['cs']
+            wb = ps['body']
+            if ps['point'] == u.point:
                 continue
-            wb = ctx.f.bodies[w.node]
-            if not position_pass_facts(ctx, wb):
-                continue
-            if u.point not in b.reach_after(w.point):
+            if u.point not in b.reach_after(ps['point']):
                 continue
             n += 1
             # (a) every path w -> u crosses an S site in b
             cut = [c.point for c in b.calls if pred(b, c)]
-            a_ok = u.point not in b.reach_after(w.point, avoid=cut)
-            # (b) inside the pass: log site -> Ok exit crosses S except via the acc==0 edge
+            a_ok = u.point not in b.reach_after(ps['point'], avoid=cut)
+            # (b) inside the pass: log site -> Ok exit (or, for a pass written in place, -> the unlink) crosses S
+            #     except via the acc==0 edge
             b_ok = True
-            logs = [f['cs'] for f in position_pass_facts(ctx, wb)]
+            logs = [f['cs'] for f in ps['facts']]
             cut_b = [c.point for c in wb.calls if pred(wb, c)]
             fe = acc_idiom_false_edges(ctx, wb, logs)
-            exits = [e['point'] for e in wb.ok_exits()]
+            exits = [u.point] if ps['inline'] else [e['point'] for e in wb.ok_exits()]
             for L in logs:
                 r = wb.reach_after(L.point, avoid=cut_b, avoid_edges=fe)
                 if any(e in r for e in exits):
@@ -277,7 +302,7 @@ def gc3(ctx):
     """The writer's current file is pinned by a live FileNumber clone across the position pass."""
     n = 0
     for (b, u) in gc_frames(ctx):
-        passes = [w for w in b.calls if w.node is not None and w.point != u.point and position_pass_facts(ctx, ctx.f.bodies[w.node]) and u.point in b.reach_after(w.point)]
+        passes = [ps['cs'] for ps in pass_sites(ctx, b) if ps['point'] != u.point and u.point in b.reach_after(ps['point'])]
         for w in passes:
             n += 1
             guards = []
@@ -495,6 +520,9 @@ def gc6(ctx):
             if not b.edge_dominates(te, u.point):
                 continue
             t = ctx.f.bodies[tcs.node]
+            # the trigger may delegate to a predicate of the tracker: analyse it with its crate-local callees in
+            # place (A-INLINE on demand), except the three accessors the test is made of
+            t = ctx.f.inlined(t, lambda cb: not (cb.path.endswith('FileNumber::can_be_deleted') or cb.path.endswith('FileTracker::count') or cb.ret_ty.startswith('&rolling::file_number::FileNumber')) and len(cb.blocks) < 60, 'gc6')
             fl = flow_of(t)
             cbd = [c2 for c2 in t.calls if c2.path.endswith('FileNumber::can_be_deleted')]
             if not cbd:
